@@ -38,3 +38,37 @@ func vh_C06_abs() {
 	verifAssert("C06.abs.equiv", got == vAnd(hostOK, portOK))
 	verifReach("end")
 }
+
+// a redirect URL without a host (https:///evil.test: browsers skip the extra slash and go to
+// evil.test) is never allowed, whatever the whitelist holds -- including entries without a
+// host part ("" from a trailing comma, ":*", ":8443"), which must match nothing at all
+// verif: unwind=9 strlen=12 concretize=6
+func vh_C06_abs_hostless() {
+	var entry string
+	switch ndChoice("entry-kind", 4) {
+	case 0:
+		entry = ""
+	case 1:
+		entry = ":*"
+	case 2:
+		port := ndString("entry-port")
+		verifAssume(len(port) <= 6)
+		entry = ":" + port
+	case 3:
+		entry = ndString("entry")
+		verifAssume(vC06Entry.MatchString(entry))
+	}
+	hostport := ndString("hostport")
+	verifAssume(vC06Host.MatchString(hostport))
+	u := &url.URL{Scheme: "https", Host: hostport}
+	got := IsEndpointAllowed(u, []string{".example.com", entry})
+	if u.Hostname() == "" {
+		verifReach("hostless-url")
+		verifAssert("C06.abs.hostless-url-never-allowed", !got)
+	}
+	if entry == "" || strings.HasPrefix(entry, ":") {
+		verifReach("hostless-entry")
+		h := u.Hostname()
+		verifAssert("C06.abs.hostless-entry-allows-nothing", got == (u.Port() == "" && (h == "example.com" || strings.HasSuffix(h, ".example.com"))))
+	}
+}
